@@ -167,13 +167,14 @@ func init() {
 				one := 1 + g.pick(nleaf)
 				addPV(func(i int) bool { return i == one })
 			}
+			probe := newSpecProbe(text, optBits(o, "net", isRTL))
 			for _, s := range g.Inputs(t, *ni, *maxLen, alpha) {
 				in := intsToRunes(s)
 				st := 0
 				if isRTL {
 					st = len(in)
 				}
-				if cheapest(func() { findRunesAt(re, in, st) }) > 60_000 {
+				if cheapest(func() { findRunesAt(re, in, st) }) > 60_000 || probe.heavy(in, isRTL) {
 					continue
 				}
 				id++
